@@ -1,6 +1,8 @@
 package main
 
 import (
+	"github.com/libsv/go-bt/v2"
+
 	"verif/harness/common"
 	"verif/harness/interpgen"
 	"verif/harness/sigspec"
@@ -55,6 +57,13 @@ func scriptCode(ops []sop, legacy bool) []byte {
 }
 
 func sigReach(r *common.Rand, emitp func(*interpgen.Program), n int) {
+	sigReachWith(r, emitp, n, func(p *interpgen.Program) *bt.Tx { return interpgen.Build(p, nil).Tx })
+}
+
+// sigReachWith: the same programs with the transaction the digests are made of supplied by the caller (who may
+// surround the tested input with more of a transaction than interpgen.Build makes: c08_owned.go); buildTx(p) must be
+// the transaction - serialisation for serialisation - that the program is then executed against.
+func sigReachWith(r *common.Rand, emitp func(*interpgen.Program), n int, buildTx func(*interpgen.Program) *bt.Tx) {
 	keys := []sigspec.Key{sigspec.NewKey(r), sigspec.NewKey(r), sigspec.NewKey(r)}
 	op := func(b ...byte) sop { return sop{b: b} }
 	push := func(d []byte) sop { return sop{b: interpgen.Push(d)} }
@@ -162,7 +171,7 @@ func sigReach(r *common.Rand, emitp func(*interpgen.Program), n int) {
 		}
 		// ---- the digest, from the transaction Build makes of p (it does not depend on the unlocking script)
 		p.Unlock = []byte{0x51}
-		tx := interpgen.Build(p.Fix(), nil).Tx
+		tx := buildTx(p.Fix())
 		code := scriptCode(core, legacy)
 		digest, err := sigspec.Digest(p.Flags, tx, p.ExtraIn, code, 1000, ht)
 		if err != nil {
